@@ -53,6 +53,8 @@ ENTRIES = {
     "pkgutil-ns-2line": ("p/__init__.py", "from pkgutil import extend_path\n__path__ = extend_path(__path__, __name__)\n"),
     # a regular package two levels down, below a namespace sub-package, with a stub for its __init__
     "p-stubs-initless": ("p-stubs/m.pyi", "y: int\n"),  # a stubs distribution without __init__.pyi (a namespace-like stubs package)
+    # symbolic links: a second name for the sub-package directory (two names, one real directory: both are packages for the import system), a second name for a module file
+    "sub-link": ("p/compat", "SYMLINK->sub"), "m-link": ("p/mlink.py", "SYMLINK->m.py"),
     "ns/pk/init": ("p/ns/pk/__init__.py", "t = 1\n"), "ns/pk/init.pyi": ("p/ns/pk/__init__.pyi", "t: int\n"), "ns/pk/mod": ("p/ns/pk/mod.py", "s = 1\n"),
 }
 NAMES = list(ENTRIES)
@@ -92,8 +94,8 @@ def files_of(layout):
     return {f"s{pl}/" + ENTRIES[n][0]: ENTRIES[n][1] for n, pl in layout}
 
 
-def cpython_walk(root):
-    paths = [os.path.join(root, "s1"), os.path.join(root, "s2")]
+def cpython_walk(root, paths=None, top="p"):
+    paths = paths or [os.path.join(root, "s1"), os.path.join(root, "s2")]
     importlib.invalidate_caches()
     out = {}
 
@@ -137,7 +139,7 @@ def cpython_walk(root):
                     if full not in out and sname.isidentifier() and os.path.isdir(os.path.join(loc, sname)) and sname != "__pycache__":
                         add(full, locs)
 
-    add("p", paths)
+    add(top, paths)
     return out
 
 
@@ -404,12 +406,61 @@ def _entry_kind(name):
     return "dir"
 
 
+# ---- family PTH: directories added by a `.pth` file of a search path ---------------------------------------------------------------
+# s1 is a site directory: it holds the first portion of the namespace package p (with a regular sub-package p.sub) and `extra.pth`, whose single line names
+# the directory `real` -- literally, through a symbolic link, relatively, or with `..` in it.  `real` holds a second portion of p (with its own, shadowed, p/sub)
+# and the regular package reg.  Like site.addsitedir, the directory comes AFTER the search path that holds the .pth file.
+PTH_FILES = {"s1/p/one.py": "a = 1\n", "s1/p/sub/__init__.py": "b = 1\n", "s1/p/sub/first.py": "c = 1\n", "real/p/two.py": "d = 1\n", "real/p/sub/__init__.py": "e = 1\n",
+             "real/p/sub/second.py": "f = 1\n", "real/reg/__init__.py": "g = 1\n", "real/reg/m.py": "h = 1\n", "link": "SYMLINK->real"}
+PTH_LINES = {"absolute": "{root}/real", "through-symlink": "{root}/link", "relative": "../real", "relative-symlink": "../link", "dot-dot": "{root}/s1/../real", "trailing-slash": "{root}/real/"}
+
+
+def run_pth(griffe, acc):
+    for lname, line in PTH_LINES.items():
+        with sandbox.scratch_dir("c14p") as d:
+            sandbox.write_tree(d, {**PTH_FILES, "s1/extra.pth": "# more packages\n" + line.replace("{root}", d) + "\n"})
+            s1 = os.path.join(d, "s1")
+            added = os.path.abspath(os.path.join(s1, line.replace("{root}", d)))  # (what site.addsitedir appends: made absolute, links not followed)
+            for top in ("p", "reg"):
+                ref = cpython_walk(d, [s1, added], top)
+                want = {k: ([os.path.realpath(x) for x in v["locations"]] if v["namespace"] else os.path.realpath(v["origin"])) for k, v in ref.items()}
+                outs = {}
+                for order_name, order in (("ascending", listing.ascending), ("descending", listing.descending)):
+                    for form in ("name", "path-as-written", "path-real"):
+                        cd = {"family": "pth", "pth_line": lname, "top": top, "request": form, "listing": order_name}
+                        target = top if form == "name" else os.path.join(added if (top == "reg" and form == "path-as-written") else os.path.join(d, "real") if top == "reg" else s1, top)
+                        try:
+                            with listing.Listing(order):
+                                loader = griffe.GriffeLoader(search_paths=[s1], allow_inspection=False)
+                                mod = loader.load(target, try_relative_path=form != "name")
+                        except Exception as e:  # noqa: BLE001
+                            acc.violation(f"pth/raise/{type(e).__name__}/{top}/{form}", f".pth line {lname}: load({target!r}) raised {e!r}", cd, None, size=1)
+                            continue
+                        got = {k: ([os.path.realpath(x) for x in t["filepath"]] if isinstance(t["filepath"], list) else os.path.realpath(t["filepath"])) for k, t in tree_of(mod, d).items()}
+                        outs[(order_name, form)] = got
+                        acc.states += 1
+                        acc.traces += 1
+                        acc.case(cd, outcome="pth:" + ("ok" if got == want else "differs"), nontrivial=True)
+                        if got != want:
+                            bad = sorted(k for k in set(got) | set(want) if got.get(k) != want.get(k))[0]
+                            what = "missing" if bad not in got else "extra" if bad not in want else "portions" if isinstance(want[bad], list) else "precedence"
+                            acc.violation(f"pth/{what}/{top}/{'by-name' if form == 'name' else 'by-path'}", f".pth line {lname}, {top} requested by {form} ({order_name} listing): {bad} is {_relp(got.get(bad), d)}, CPython (site.addsitedir) has {_relp(want.get(bad), d)}", cd, None, size=1)
+                acc.observe(sorted(map(str, outs)))
+
+
+def _relp(v, d):
+    real = os.path.realpath(d)
+    return [x.replace(real, "<root>") for x in v] if isinstance(v, list) else (v.replace(real, "<root>") if isinstance(v, str) else v)
+
+
 def run_shard(shard, tier):
     boot.boot()
     import griffe
 
     acc = Acc()
     acc.max_samples = 2
+    if shard == 0:
+        run_pth(griffe, acc)
     for maxe, dev in _PLAN[tier]:
         acc.dev = dev
         for idx, layout in enumerate(layouts(maxe)):
@@ -430,5 +481,8 @@ def replay(case):
 
     acc = Acc()
     acc.dev = 2
+    if case.get("family") == "pth":
+        run_pth(griffe, acc)
+        return [(k, v["summary"], v["detail"]) for k, v in acc.violations.items()]
     run_layout(griffe, acc, tuple((n, pl) for n, pl in case["layout"]))
     return [(k, v["summary"], v["detail"]) for k, v in acc.violations.items()]
